@@ -13,6 +13,10 @@ REGISTRY = {
     "C03": "c03",
     "C04": "c04",
     "C05": "c05",
+    "C06": "c06",
+    "C13": "c13",
+    "C15": "c15",
+    "C17": "c17",
 }
 
 
